@@ -26,7 +26,7 @@ func init() {
 				"consulted before the question-type gate, is keyed injectively by host, type, class and direction.",
 			NotCovered: "EQUALITY WITH THE SHA-256 SET MODEL (that Matches/Hashes return exactly the listed names' hashes) and THE PUBLIC-SUFFIX / FOUR-LABEL CUT of hashableSubdomains: " +
 				"hash and string computations outside static reach.",
-			Rules: map[string]string{"C11-R17": "builder: the TXT matcher is created after the filters have registered their storages", "C11-R16": "hash-prefix result cache: collision check on the stored host (shared with C12-R6)", "C11-RC": "class rules (error chains, shadowed results, character classes, crossed arguments, pool constructors, array pools, loop completeness, loop-carried buffers, replacing setters, complete clones, Grow arithmetic, pooled-buffer escape, sorted searches, fresh decode targets, per-iteration objects, whole-message copies, codec guards) over the packages this property rests on", "C11-R15": "list sources are read through readers that fail at the size limit, never through one that cuts silently (shared with C13-R7)", "C11-R14": "hash-prefix result cache stores clones and hands out clones (shared with C07-R4)", "C11-R1": "question-type gates", "C11-R2": "prefix length table", "C11-R3": "refuse, not forward", "C11-R4": "digest split agreement",
+			Rules: map[string]string{"C11-R18": "setSafeBrowsing and setParental install every selected safety filter under its own switch (tables shared with C02-R26)", "C11-R19": "agdnet.NormalizeDomain lower-cases every ASCII letter of the name that is hashed (shared with C10-R12)", "C11-R17": "builder: the TXT matcher is created after the filters have registered their storages", "C11-R16": "hash-prefix result cache: collision check on the stored host (shared with C12-R6)", "C11-RC": "class rules (error chains, shadowed results, character classes, crossed arguments, pool constructors, array pools, loop completeness, loop-carried buffers, replacing setters, complete clones, Grow arithmetic, pooled-buffer escape, sorted searches, fresh decode targets, per-iteration objects, whole-message copies, codec guards) over the packages this property rests on", "C11-R15": "list sources are read through readers that fail at the size limit, never through one that cuts silently (shared with C13-R7)", "C11-R14": "hash-prefix result cache stores clones and hands out clones (shared with C07-R4)", "C11-R1": "question-type gates", "C11-R2": "prefix length table", "C11-R3": "refuse, not forward", "C11-R4": "digest split agreement",
 				"C11-R13": "(*Storage).Matches compares the digest with every suffix of its bucket (a range loop left early only by the hit); binary searches need a sorted-data discipline (shared rule, also run over bindtodevice's index as the positive instance)",
 				"C11-R7":  "hashprefix.Filter.FilterRequest: cache first; then the type gate; then every candidate name (host and parents) is matched in order until the first hit; a hit is answered with the replacement built for this request and cached under this request's key",
 				"C11-R11": "builder wiring of the three hash-prefix filters: each filter's ID, cache file, hash storage, list URL and target field belong to the same list (two lists never share a cache file or a storage)",
@@ -38,6 +38,14 @@ func init() {
 
 func runC11(c *an.Ctx) {
 	classSweep(c, "C11")
+	// ---- R18: the safety filters a profile selected are all installed, each under its own switch (tables shared with C02-R26);
+	// R19: the name that is hashed is lower-cased over the whole ASCII range (shared with C10-R12)
+	c.Floor("C11-R18", 2)
+	c.Borrow("C11-R18", runC02, func(o an.Obligation) bool {
+		return o.Rule == "C02-R26" && (strings.Contains(o.Key, "setSafeBrowsing") || strings.Contains(o.Key, "setParental"))
+	})
+	c.Floor("C11-R19", 1)
+	c.Borrow("C11-R19", runC10, func(o an.Obligation) bool { return o.Rule == "C10-R12" })
 	dnssvcWiring(c, "C11-R12", func(dst, src string) bool {
 		n := normName(dst) + " " + normName(src)
 		return strings.Contains(n, "hashmatcher")
